@@ -284,7 +284,8 @@ def classify(fe, topo):
     m = fe.get('m', {})
     for d, v in sorted(m.items()):
         if v < 0:
-            return 'negative-count:%s' % d
+            # one signature per topology: which count dips below zero depends on the interleaving only
+            return 'negative-count'
         if d in CAPS[topo] and v > CAPS[topo][d]:
             return 'over-capacity:%s' % d
     if fe.get('op') == 'rest':
@@ -292,7 +293,7 @@ def classify(fe, topo):
             return 'rest:not-idle:%s' % '+'.join(st for st in fe.get('states', []) if st != 'idle')
         return 'rest:counts-or-delivery'
     if fe.get('op') == 'fire':
-        return 'fire-at-full-target:%s' % fe.get('d')
+        return 'fire-at-full-target'
     return 'step:%s' % fe.get('op', '?')
 
 
